@@ -267,29 +267,109 @@ func fwdLoadRules(v ssa.Value) ssa.Value {
 func c11r5(p *model.Prog, r *report.Result) {
 	r.Rule("C11.R5", "in BasicHttpSubSession.Write / write the byte slices handed to conn.Write / conn.Writev are the caller's slice or freshly built ones, never (a slice of) a buffer kept in a session field: the connection queues references, so a re-used buffer would be overwritten while an earlier frame still waits in the queue")
 	n := 0
+	recvT := p.Named("pkg/base", "BasicHttpSubSession")
+	isOwnMethod := func(o *types.Func) bool {
+		if o == nil {
+			return false
+		}
+		sig, _ := o.Type().(*types.Signature)
+		if sig == nil || sig.Recv() == nil {
+			return false
+		}
+		t := sig.Recv().Type()
+		if pt, ok := t.(*types.Pointer); ok {
+			t = pt.Elem()
+		}
+		return types.Identical(t, recvT)
+	}
 	for _, name := range []string{"Write", "write", "WriteHttpResponseHeader"} {
 		fn := p.Method("pkg/base", "BasicHttpSubSession", name)
+		// aliasField: the session field (if any) whose buffer v may share memory with
+		var aliasField func(v ssa.Value, seen map[ssa.Value]bool) string
+		aliasField = func(v ssa.Value, seen map[ssa.Value]bool) string {
+			if v == nil || seen[v] {
+				return ""
+			}
+			seen[v] = true
+			switch x := v.(type) {
+			case *ssa.Slice:
+				return aliasField(x.X, seen)
+			case *ssa.Convert:
+				return aliasField(x.X, seen)
+			case *ssa.ChangeType:
+				return aliasField(x.X, seen)
+			case *ssa.MakeInterface:
+				return aliasField(x.X, seen)
+			case *ssa.Phi:
+				for _, e := range x.Edges {
+					if f := aliasField(e, seen); f != "" {
+						return f
+					}
+				}
+			case *ssa.Alloc:
+				// a local array / cell: whatever was stored into it or its elements
+				for _, ref := range *x.Referrers() {
+					switch y := ref.(type) {
+					case *ssa.Store:
+						if y.Addr == ssa.Value(x) {
+							if f := aliasField(y.Val, seen); f != "" {
+								return f
+							}
+						}
+					case *ssa.IndexAddr:
+						for _, r2 := range *y.Referrers() {
+							if st, ok := r2.(*ssa.Store); ok && st.Addr == ssa.Value(y) {
+								if f := aliasField(st.Val, seen); f != "" {
+									return f
+								}
+							}
+						}
+					}
+				}
+			case *ssa.UnOp:
+				if x.Op != token.MUL {
+					return ""
+				}
+				if a, ok := x.X.(*ssa.Alloc); ok {
+					return aliasField(a, seen)
+				}
+				if fp, ok := loadPath(v); ok && len(fp.Fields) >= 1 {
+					if _, isSl := v.Type().Underlying().(*types.Slice); isSl && sameRoot(fp.Base, fn.Params[0]) {
+						return fp.String()
+					}
+				}
+			case *ssa.Call:
+				if b, ok := x.Call.Value.(*ssa.Builtin); ok && b.Name() == "append" {
+					return aliasField(x.Call.Args[0], seen) // the result may re-use the first operand's array
+				}
+			}
+			return ""
+		}
 		for _, ci := range model.AllCalls(fn) {
 			o := model.CalleeObj(ci.Common())
-			if o == nil || (o.Name() != "Write" && o.Name() != "Writev") || !ci.Common().IsInvoke() {
+			if o == nil {
+				continue
+			}
+			var args []ssa.Value
+			switch {
+			case ci.Common().IsInvoke() && (o.Name() == "Write" || o.Name() == "Writev"):
+				args = ci.Common().Args
+			case !ci.Common().IsInvoke() && isOwnMethod(o) && (o.Name() == "write" || o.Name() == "Write" || o.Name() == "WriteHttpResponseHeader"):
+				args = ci.Common().Args[1:]
+			default:
 				continue
 			}
 			n++
 			bad := ""
-			for _, a := range ci.Common().Args {
-				model.DependsOn(a, func(v ssa.Value) bool {
-					if fp, ok := loadPath(v); ok && len(fp.Fields) >= 1 {
-						if _, isSl := v.Type().Underlying().(*types.Slice); isSl && sameRoot(fp.Base, fn.Params[0]) {
-							bad = fp.String()
-						}
-					}
-					return false
-				})
+			for _, a := range args {
+				if f := aliasField(a, map[ssa.Value]bool{}); f != "" {
+					bad = f
+				}
 			}
 			r.Check(bad == "", "C11.R5", fkey(fn, "queued", "not-a-reused-buffer"), p.InstrPos(ci), "queued data is the caller's or freshly built", "the data queued for writing is (part of) the session's re-used buffer "+bad+": a frame still waiting in the write queue is overwritten by the next one")
 		}
 	}
-	if n < 2 {
+	if n < 4 {
 		r.Bad("C11.R5", "floor", "", "the connection writes of BasicHttpSubSession were not found")
 	}
 }
@@ -468,6 +548,60 @@ func c14r89(p *model.Prog, r *report.Result) {
 				okAll = false
 				r.Bad("C14.R9", fkey(add, "ban", "re-add"), p.InstrPos(iff), "re-adding a black-listed address with a LATER expiry keeps the earlier one: the ban ends early (or never takes effect when the old entry already lapsed)")
 			}
+		}
+	}
+	// every path to a return stores the new expiry, except over an edge that established old >= new
+	goodEdge := func(b *ssa.BasicBlock, k int) bool {
+		iff, ok := b.Instrs[len(b.Instrs)-1].(*ssa.If)
+		if !ok {
+			return false
+		}
+		cmp, isCmp := iff.Cond.(*ssa.BinOp)
+		if !isCmp {
+			return false
+		}
+		var oldOnLeft bool
+		switch {
+		case cmp.Y == untilV && isMapLookup(cmp.X):
+			oldOnLeft = true
+		case cmp.X == untilV && isMapLookup(cmp.Y):
+			oldOnLeft = false
+		default:
+			return false
+		}
+		taken := func(oldV, newV int64) bool {
+			x, y := oldV, newV
+			if !oldOnLeft {
+				x, y = newV, oldV
+			}
+			var res bool
+			switch cmp.Op {
+			case token.LSS:
+				res = x < y
+			case token.LEQ:
+				res = x <= y
+			case token.GTR:
+				res = x > y
+			case token.GEQ:
+				res = x >= y
+			case token.EQL:
+				res = x == y
+			case token.NEQ:
+				res = x != y
+			}
+			return res == (k == 0)
+		}
+		return !taken(1, 2) // the edge is never taken when the old expiry is earlier
+	}
+	if okAll {
+		skip := model.PathQuery{
+			StopEdge: goodEdge,
+			Stop:     func(in ssa.Instruction) bool { return in == upd },
+			Target:   func(in ssa.Instruction) bool { _, isR := in.(*ssa.Return); return isR },
+		}.Find(add)
+		if skip != nil {
+			okAll = false
+			r.Bad("C14.R9", fkey(add, "ban", "re-add"), p.InstrPos(skip), "IpBlacklist.Add can return without storing the new expiry although the existing one (if any) was not shown to be at least as late: a repeated offender's ban is not extended")
 		}
 	}
 	if okAll {
